@@ -375,6 +375,37 @@ let handle_pk fields =
     if orc <> "ok" then oracle_fail "pk" toks orc
   | _ -> raise (Parse "bad pk line")
 
+
+(* ---------- family: tree (text-level pipeline) ---------- *)
+let rec sexp (t : Builder.tree) : string =
+  match t with
+  | Builder.Leaf (k, x) -> string_of_n k ^ ":" ^ string_of_n (Lexer.blen x)
+  | Builder.Node (k, c) -> "(" ^ String.concat " " (string_of_n k :: L.map sexp c) ^ ")"
+let ranges_str l = String.concat "," (L.map (fun (a, b) -> string_of_n a ^ "-" ^ string_of_n b) l)
+let drop_field key s =
+  String.concat ";" (L.filter (fun f -> not (is_prefix (key ^ "=") f)) (split_on ';' s))
+let model_tree (cs : Lexer.ch list) : string =
+  let cl = match Builder.parse_check_lex cs with Builder.POk _ -> "1" | _ -> "0" in
+  match Builder.parse_source cs with
+  | Builder.POk r ->
+    Printf.sprintf "T=%s;PE=%s;LE=%s;VT=%s;CL=%s" (sexp r.Builder.pr_tree)
+      (join_n r.Builder.pr_parse_errors) (ranges_str r.Builder.pr_lex_errors)
+      (ranges_str r.Builder.pr_timing_errors) cl
+  | Builder.PNoTree _ -> "NOTREE"
+  | Builder.PPanic (st, w) -> "PANIC stage " ^ string_of_n st ^ " site " ^ string_of_n w
+  | Builder.PHang -> "HANG"
+let handle_tree fields =
+  match fields with
+  | [txt; impl; orc] ->
+    let cs = parse_chars txt in
+    count_case txt (L.length cs >= 3); sample "tree" txt impl;
+    let m = model_tree cs in
+    let impl' = if is_prefix "PANIC" impl then "PANIC" else drop_field "VE" impl in
+    let m' = if is_prefix "PANIC" m then "PANIC" else m in
+    if m' <> impl' then mismatch "tree" txt impl m;
+    if orc <> "ok" then oracle_fail "tree" txt orc
+  | _ -> raise (Parse "bad tree line")
+
 (* ---------- main loop ---------- *)
 let () =
   Array.iter (fun a -> if a = "--nodedupe" then dedupe := false) Sys.argv;
@@ -391,6 +422,7 @@ let () =
              | "symtab" -> handle_symtab fields
              | "lex" -> handle_lex fields
              | "pk" -> handle_pk fields
+             | "tree" -> handle_tree fields
              | _ -> raise (Parse ("unknown family " ^ fam)))
           with Parse m -> report "DRIVER-ERROR" [m; line]; incr mismatches)
        | [] -> ()
